@@ -202,6 +202,9 @@ def check_matching_plot(project: Project, rep, qual):
     if ok is True:
         rep.discharged("PL-SEG", fi, segs[0]["node"], "every matching row with a non-diagonal entry reaches exactly one "
                                                       "segment-drawing call; diagonal–diagonal rows reach none")
+    elif ok is False and (I.lossy or any(u["fi"].qualname != "persim.visuals.plot_diagrams" for u in I.unmodelled)):
+        why = I.lossy[0]["why"] if I.lossy else "unmodelled value: " + I.unmodelled[0]["tag"]
+        rep.unmodelled("PL-SEG", fi, segs[0]["node"], f"the drawing loop could not be followed exactly ({why})")
     elif ok is False:
         rep.refuted("PL-SEG", fi, segs[0]["node"], f"the number of segments drawn for a matching row is not 1 iff it has a "
                                                    f"non-diagonal entry; witness {w}", construct=f"{qual}: segments per row")
@@ -380,7 +383,10 @@ def check_plot_diagrams(project: Project, rep):
         I.run(qual, {"diagrams": Seq([dgm_input("S"), dgm_input("T")]), "lifetime": Sc(sym.Bool(lifetime)),
                      "ax": ObjV(None, {}, tag="axes")})
         tag = f"lifetime={lifetime}"
-        sc = [ev for ev in I.log if ev["kind"] == "draw" and ev["method"] == "scatter" and ev["fi"] is fi]
+        sc = [ev for ev in I.log if ev["kind"] == "draw" and ev["method"] == "scatter"]
+        if len(sc) != 2 and (not sc or I.lossy or I.unmodelled):
+            rep.unmodelled("PL-DGM", fi, fi.node, f"{tag}: the scatter calls could not be followed ({len(sc)} seen)")
+            continue
         if len(sc) != 2:
             rep.refuted("PL-DGM", fi, sc[0]["node"] if sc else fi.node,
                         f"{tag}: {len(sc)} scatter collections are created for 2 diagrams (one per diagram is required)",
@@ -497,6 +503,9 @@ def check_landscape_plots(project: Project, rep):
         var = lp.target.elts[1].id
         plots = [c for c in ast.walk(lp) if isinstance(c, ast.Call) and isinstance(c.func, ast.Attribute)
                  and c.func.attr == "plot"]
+        if not plots:
+            rep.unmodelled("PL-LAND", fi, lp, "no line is drawn inside the depth loop (drawing happens elsewhere): not followed")
+            continue
         if len(plots) != 1:
             rep.refuted("PL-LAND", fi, lp, f"{len(plots)} line(s) drawn per depth instead of exactly one")
             continue
